@@ -10,6 +10,14 @@ def rmsg(fc, fd, en=None, blob=False, dev=None):
     return [fc, fd, [] if en is None else [en], blob, [] if dev is None else [dev]]
 
 
+def write_failed(c):
+    """the connection whose writes fail in this script (what it has 'received' is not counted)"""
+    for st in c["script"]:
+        if st[0] == "writefail":
+            return st[1]
+    return None
+
+
 class C18(core.Prop):
     id = "C18"
     prop_file = "C18.v"
@@ -18,7 +26,7 @@ class C18(core.Prop):
     correspondence = ("real TCP and TTY connection handlers on fake streams inside a running loop, faults injected at every step of a session "
                       "script, vs the router model driven by the lifecycle translation (open = register, message = send, any ending = unregister)")
     rule = ("session scripts of 2-3 connections (handshake, enableBLOB Also/Only/Never, writes, device traffic incl. BLOB updates) x fault kind "
-            "{EOF, read error, EOF inside a message, junk then EOF, handler exception, write error on a peer} injected at every step index x "
+            "{EOF, read error, EOF inside a message, junk then EOF, handler exception, write error on a peer, write error on the connection itself before it ends} injected at every step index x "
             "victim transport {TCP, TTY}, followed by device traffic and a reconnect; non-trivial = script with a fault; distinct by script")
     assumptions = ["one TTY connection per script at most (the TTY server has a single channel)",
                    "a write error on a peer does not by itself end that peer's connection; it ends when its reader does"]
@@ -27,7 +35,7 @@ class C18(core.Prop):
     def gen(self, rng, tier):
         cases = []
         for victim_kind in ("tcp", "tty"):
-            for fault in FAULTS + ["peer-write-error"]:
+            for fault in FAULTS + ["peer-write-error", "own-write-error"]:
                 base = [["open", 1, victim_kind], ["open", 2, "tcp"], ["peer", 1, GETP], ["peer", 2, GETP],
                         ["peer", 1, ENABLE % rng.choice(["Also", "Only"])], ["peer", 2, ENABLE % "Also"], ["dev", False],
                         ["peer", 1, WRITE], ["dev", True], ["open", 3, "tcp"], ["peer", 3, ENABLE % "Only"], ["dev", True], ["dev", False]]
@@ -36,6 +44,9 @@ class C18(core.Prop):
                     script = list(base[:pos])
                     if fault == "peer-write-error":
                         script += [["writefail", 2], ["dev", False], ["fault", 1, "eof"]]
+                    elif fault == "own-write-error":
+                        # a write to the connection fails first; it ends (by end of stream) afterwards
+                        script += [["writefail", 1], ["dev", False], ["fault", 1, "eof"]]
                     else:
                         script += [["fault", 1, fault]]
                     script += base[pos:] + [["dev", False], ["dev", True], ["open", 4, "tcp"], ["dev", True], ["dev", False]]
@@ -91,7 +102,7 @@ class C18(core.Prop):
                         counts[x[1]] = counts.get(x[1], 0) + 1
             got = {int(cid): n for cid, n in step["received"].items()}
             for cid in got:
-                if c["fault"] == "peer-write-error" and cid == 2:
+                if cid == write_failed(c):
                     continue
                 if got[cid] != counts.get(cid, 0):
                     return "after step %d %s: connection %d has received %d messages, model %d" % (i, st, cid, got[cid], counts.get(cid, 0))
@@ -130,7 +141,7 @@ class C18(core.Prop):
             if st[0] == "dev" and not st[1]:
                 prev = obs["steps"][i - 1]
                 for cid in open_ids:
-                    if cid == 2 and c["fault"] == "peer-write-error":
+                    if cid == write_failed(c):
                         continue
                     if cid == 3:
                         continue          # policy Only: no plain traffic by design
